@@ -109,12 +109,29 @@ def check(an, rep, tier):
                 'ok' if got == bad else 'violation',
                 '' if got == bad else 'a %dx%d matrix is %s' % (
                     nn, rr, 'not rejected' if bad else 'rejected'))
-    for nn, rr, dmin, dmax, bad in ((10, 3, 2, 1, True), (10, 3, -1, 2, True),
-                                    (10, 3, 0, 2, False), (10, 3, 2, 2, False),
-                                    (10, 3, 8, 9, True)):
-        got = run_lit('maxvol.maxvol_rect', nn, rr, dr_min=dmin, dr_max=dmax)
+    # documented contract: 0 <= dr_min, r + dr_min <= min(r + dr_max, n)
+    # (dr_max None = no upper limit); enumerated over a literal grid
+    grid = []
+    nn, rr = 10, 3
+    for dmin in (-1, 0, 1, 2, 7, 8):
+        for dmax in (None, 0, 1, 2, 7, 8):
+            rmax = nn if dmax is None else min(rr + dmax, nn)
+            bad = dmin < 0 or rr + dmin > rmax
+            grid.append((nn, rr, dmin, dmax, bad))
+    for nn, rr, dmin, dmax, bad in grid:
+        if dmax is None:
+            from ..values import NONE
+            I_ = interp.Interp(prog, dict(o))
+            I_.run_function(prog.func('maxvol.maxvol_rect'),
+                            {'A': ARR((Poly.const(nn), Poly.const(rr)), 'f'),
+                             'dr_min': INT(dmin), 'dr_max': NONE()})
+            got = any(x[1] == 'ValueError' and x[0] == 'maxvol.maxvol_rect'
+                      for x in I_.raises) and not I_.entry_returns
+        else:
+            got = run_lit('maxvol.maxvol_rect', nn, rr, dr_min=dmin,
+                          dr_max=dmax)
         rep.add('P-domain', 'maxvol.maxvol_rect',
-                '%dx%d, dr_min=%d, dr_max=%d %s'
+                '%dx%d, dr_min=%d, dr_max=%s %s'
                 % (nn, rr, dmin, dmax, 'rejected' if bad else 'accepted'),
                 'ok' if got == bad else 'violation',
                 '' if got == bad else 'wrong rejection behaviour')
